@@ -50,6 +50,11 @@ CHECKS["C08"] = ("exploration",
   "For 12 scrutinee types (bool, u8, i8, u16, i32, u64, enum, tuples, struct, nested) every list of up to L arms over an alphabet of identifier / literal / inclusive / exclusive range / enum / tuple / struct(.. , reordered) patterns is type-checked by the real checker; the verdict must equal 'every domain value matches some arm'; accepted matches are compiled and evaluated on every domain value (first matching arm and its binding); every reported missing case must match at least one value and no value that an arm matches.",
   "Alphabet and list-length bounds; wide integers are covered by region representatives (complete for interval patterns).", "DESIGN.md §4 C08")
 
+CHECKS["C09"] = ("exploration",
+  "exhaustive enumeration of types (nesting depth <= 2) x values over boundary alphabets x literal spellings (text and programmatic, incl. malformed ones) through every literal entry point of the real API vs. the harness's own bit encoder",
+  "For every enumerated type the identity program is compiled; for every value every spelling is pushed through parse_arg, literal_arg, Evaluator::set_literal, parse_output and the identity circuit. Canonical spellings must be accepted and encode to exactly the oracle bits (size(T), documented layout); alternative spellings of the same value must be refused or give the same bits; spellings that denote no value (out-of-range numbers, duplicated/missing fields, wrong arity, reversed ranges, trailing tokens) must be refused; nothing may panic.",
+  "Oracle = gast.rs Val::encode/decode (big-endian two's complement, concatenation, tag + zero padding). Values per type capped (cap in evidence).", "DESIGN.md §4 C09")
+
 NOT_YET = {
 }
 
